@@ -1,0 +1,88 @@
+//go:build verif
+
+// Contracts for the HTTP wiring in main.go (C13), checked by /verif (govc). Comment-only file.
+//
+// authWrapped(f): the function value f passes a request on to the handler it wraps only after
+// the request was authenticated (basic auth, LDAP or a verified client certificate);
+// writeAuthWrapped(f): the same for every method other than GET and HEAD. Both are
+// uninterpreted: they are ASSUMED for the values returned by the authentication wrappers
+// (whose own bodies are under contract where they live in this repository) and for wrappers
+// that merely forward to a wrapped function; what is PROVED here is that the handlers
+// registered for /status, /metrics and / carry them whenever authentication is configured.
+
+package main
+
+//@ extern github.com/abbot/go-http-auth.JustCheck(a, wrapped)
+//@   pure
+//@   ensures authWrapped(ref(result)) && writeAuthWrapped(ref(result))
+
+// ASSUMED: the metrics middleware forwards every request to the handler it wraps.
+//@ pred handlerAuth(h) = istype(h, "http.HandlerFunc") ? authWrapped(payload(h)) : authWrapped(boundfn("(net/http.Handler).ServeHTTP", h))
+//@ pred handlerWriteAuth(h) = istype(h, "http.HandlerFunc") ? writeAuthWrapped(payload(h)) : writeAuthWrapped(boundfn("(net/http.Handler).ServeHTTP", h))
+//@ extern github.com/slok/go-http-metrics/middleware/std.Handler(handlerID, m, h)
+//@   pure
+//@   ensures result != nil && !istype(result, "http.HandlerFunc")
+//@   ensures authWrapped(boundfn("(net/http.Handler).ServeHTTP", result)) <==> handlerAuth(h)
+//@   ensures writeAuthWrapped(boundfn("(net/http.Handler).ServeHTTP", result)) <==> handlerWriteAuth(h)
+
+// (*httpCache).VerifyClientCertHandler: its function literal is under contract in server/.
+//@ extern (*github.com/buchgr/bazel-remote/v2/server.httpCache).VerifyClientCertHandler(h, wrapMe)
+//@   pure
+//@   ensures result != nil && !istype(result, "http.HandlerFunc")
+//@   ensures authWrapped(boundfn("(net/http.Handler).ServeHTTP", result)) && writeAuthWrapped(boundfn("(net/http.Handler).ServeHTTP", result))
+
+//@ iface (github.com/buchgr/bazel-remote/v2/server.HTTPCache).VerifyClientCertHandler(h, wrapMe)
+//@   pure
+//@   ensures result != nil && !istype(result, "http.HandlerFunc")
+//@   ensures authWrapped(boundfn("(net/http.Handler).ServeHTTP", result)) && writeAuthWrapped(boundfn("(net/http.Handler).ServeHTTP", result))
+
+// Basic authentication of one request: authN counts checks by the current invocation,
+// authUser is the user name the last one accepted ("" = refused).
+//@ ghost authN Int
+//@ ghost authUser GStr
+//@ extern (*github.com/abbot/go-http-auth.BasicAuth).CheckAuth(a, r)
+//@   pure
+//@   gmodifies authN, authUser
+//@   gensures authN == old(authN) + 1 && authUser == result
+
+//@ extern net/http.Error(w, error, code)
+//@   pure
+
+// the function literal returned by unauthenticatedReadWrapper
+//@ func unauthenticatedReadWrapper$1(w http.ResponseWriter, r *http.Request)
+//@   serves C13
+//@   requires r != nil && handler != nil && authenticator != nil
+//@   noframe
+//@   selfensures writeAuthWrapped(self)
+//@   call handler#0 asserts[C13] readonly: r.Method == "GET" || r.Method == "HEAD"
+//@   call handler#1 asserts[C13] authenticated: authN == old(authN) + 1 && authUser != ""
+
+// wrappers inside startHttpServer that forward every request to the captured handler
+//@ func startHttpServer$1(w http.ResponseWriter, r *http.Request)
+//@   serves C13
+//@   requires ch != nil && idleTimer != nil
+//@   noframe
+//@   selfensures (authWrapped(self) <==> authWrapped(ref(ch))) && (writeAuthWrapped(self) <==> writeAuthWrapped(ref(ch)))
+//@ func startHttpServer$2(w http.ResponseWriter, r *http.Request)
+//@   serves C13
+//@   requires ch != nil && r != nil
+//@   noframe
+//@   selfensures (authWrapped(self) <==> authWrapped(ref(ch))) && (writeAuthWrapped(self) <==> writeAuthWrapped(ref(ch)))
+
+//@ extern github.com/buchgr/bazel-remote/v2/server.NewHTTPCache(cache, accessLogger, errorLogger, validateAC, mangleACKeys, checkClientCertForReads, checkClientCertForWrites, commit, gitTags, maxCasBlobSizeBytes)
+//@   pure
+//@   ensures result != nil
+
+//@ pred authConfigured(c) = c.TLSCaFile != "" || c.HtpasswdFile != "" || c.LDAP != nil
+//@ pred needsAuthForReads(c) = authConfigured(c) && !c.AllowUnauthenticatedReads
+
+//@ func startHttpServer(c *config.Config, httpServer **http.Server, htpasswdSecrets auth.SecretProvider, idleTimer *idle.Timer, httpSem *semaphore.Weighted, diskCache disk.Cache) error
+//@   serves C13
+//@   requires c != nil && httpServer != nil && httpSem != nil && diskCache != nil
+//@   allowpanic
+//@   noframe
+//@   call NewHTTPCache#* asserts[C13] certflags: arg5 == (c.TLSCaFile != "" && !c.AllowUnauthenticatedReads) && arg6 == (c.TLSCaFile != "")
+//@   call HandleFunc#* asserts[C13] status: (arg1 == "/status" && needsAuthForReads(c)) ==> authWrapped(ref(arg2))
+//@   call HandleFunc#* asserts[C13] cachereads: (arg1 == "/" && needsAuthForReads(c) && c.TLSCaFile == "") ==> authWrapped(ref(arg2))
+//@   call HandleFunc#* asserts[C13] cachewrites: (arg1 == "/" && (c.HtpasswdFile != "" || c.LDAP != nil)) ==> writeAuthWrapped(ref(arg2))
+//@   call Handle#* asserts[C13] metrics: (arg1 == "/metrics" && needsAuthForReads(c)) ==> handlerAuth(arg2)
